@@ -1068,7 +1068,14 @@ static int32_t tls13ParseHandshakeMessage(ssl_t *ssl,
                 rc = SSL_ENCODE_RESPONSE;
                 goto exit;
             }
-            /* Alert reason should be set in parse function so just return */
+            if (rc != SSL_NO_TLS_1_3 && ssl->err == SSL_ALERT_NONE)
+            {
+                /* tls13ParseServerHello reports a message it cannot parse
+                   without choosing an alert. Such a message must end the
+                   handshake (RFC 8446, 6.2: decode_error); with no alert
+                   set it would be skipped and the next ServerHello taken. */
+                ssl->err = SSL_ALERT_DECODE_ERROR;
+            }
             goto exit;
         }
         rc = tls13CheckAlignedWithRecordEnd(ssl, *bufStart, bufEnd);
